@@ -126,11 +126,6 @@ struct Cluster {
     first: (usize, usize),
 }
 
-pub struct Exec<'a> {
-    pub ty: &'a dyn TyObj,
-    pub want_log: bool,
-}
-
 fn plan_of_event(e: &Event, original: Option<&Plan>) -> Plan {
     match &e.resp {
         Resp::Ok(b) => Plan::Fixed(b.clone()),
